@@ -209,14 +209,47 @@ Definition topk_ts_ok (k : Z) (top : bool) (cm : option comparison) (inner out :
   end.
 Definition topk_ok (k : Z) (top : bool) (cm : option comparison) (inner out : list orow) : bool :=
   forallb (topk_ts_ok k top cm inner out) (map (fun x : orow => snd (fst x)) (inner ++ out)%list).
-(* 0 = the statement's rows are a threshold-filtered top-/bottom-k selection of the inner vector's reference; 1 = they are not;
-   2 = the statement does not evaluate; 3 = not judged (step longer than the range: the selection is re-bucketed) *)
+(* ---------- a step LONGER than the range: the selection is re-bucketed after it (StepFixPlanner) ----------
+   topk_correct: out = ref_step step d (ref_cmp cmp K) for a kept set K (per timestamp min(k, n) rows of the inner vector, no dropped
+   row beats a kept one). The re-bucketing mixes the timestamps of one step window, so the decision per timestamp above does not
+   apply; here every kept set is enumerated - per timestamp the (kept, dropped) splits of the inner rows that are top-(bottom-)k sets
+   (more than one only where values tie at the border), all combinations over the timestamps, capped - and the statement's rows must
+   be the re-bucketed, threshold-filtered rows of one of them. *)
+Fixpoint splits_n {A : Type} (n : nat) (l : list A) {struct l} : list (list A * list A) :=
+  match l with
+  | [] => match n with O => [([], [])] | S _ => [] end
+  | x :: r =>
+    match n with
+    | O => [([], l)]
+    | S n' => (map (fun p => (x :: fst p, snd p)) (splits_n n' r) ++ map (fun p => (fst p, x :: snd p)) (splits_n n r))%list
+    end
+  end.
+Definition topk_sets (k : Z) (top : bool) (I : list vrow) : list (list vrow) :=
+  let m := Z.to_nat (Z.min (Z.max k 0) (Z.of_nat (List.length I))) in
+  let better (a b : vrow) := if top then Qle_bool (this (v_val b)) (this (v_val a)) else Qle_bool (this (v_val a)) (this (v_val b)) in
+  map fst (filter (fun p : list vrow * list vrow => forallb (fun d => forallb (fun x => better x d) (fst p)) (snd p)) (splits_n m I)).
+Fixpoint combos {A : Type} (ls : list (list (list A))) : list (list A) :=
+  match ls with [] => [[]] | c :: r => flat_map (fun x => map (fun y => (x ++ y)%list) (combos r)) c end.
+Fixpoint dedup_z (l : list Z) : list Z :=
+  match l with [] => [] | x :: r => x :: filter (fun y => negb (Z.eqb x y)) (dedup_z r) end.
+Definition topk_cap : Z := 4096.
+(* Some true = the rows are the re-bucketed selection of some kept set; Some false = of none; None = more than topk_cap kept sets *)
+Definition topk_step_ok (t : Logql.topk) (c : pctx) (inner : list vrow) (out : list (lmap * Z * Q)) : option bool :=
+  let cands := map (fun x => topk_sets (tk_len t) (tk_top t) (filter (fun r => Z.eqb (v_ts r) x) inner)) (dedup_z (map v_ts inner)) in
+  if Z.ltb topk_cap (fold_right (fun (cs : list (list vrow)) a => (Z.of_nat (List.length cs) * a)%Z) 1%Z cands) then None else
+  Some (existsb (fun K => same_multiset out (ref_step (c_step_ns c) (get_duration (STopK t)) (ref_cmp (tk_cmp t) K))) (combos cands)).
+
+(* 0 = the statement's rows are a threshold-filtered top-/bottom-k selection of the inner vector's reference (re-bucketed to the step
+   when that is longer than the range); 1 = they are not; 2 = the statement does not evaluate; 3 = not judged (a longer step and more
+   than topk_cap kept sets to try) *)
 Definition topk_verdict (t : Logql.topk) (c : pctx) (d : LogqlSem.database) (rows : option table) : Z :=
-  if Z.ltb (get_duration (STopK t)) (c_step_ns c) then 3%Z else
   match rows, ref_rows (topk_inner t) c d with
   | Some tb, Some inner =>
     match map_opt out_of_row tb with
-    | Some out => if topk_ok (tk_len t) (tk_top t) (tk_cmp t) (map orow_of inner) out then 0%Z else 1%Z
+    | Some out =>
+      if Z.ltb (get_duration (STopK t)) (c_step_ns c) then
+        match topk_step_ok t c inner out with Some true => 0%Z | Some false => 1%Z | None => 3%Z end
+      else if topk_ok (tk_len t) (tk_top t) (tk_cmp t) (map orow_of inner) out then 0%Z else 1%Z
     | None => 1%Z
     end
   | Some _, None => 1%Z
